@@ -85,20 +85,19 @@ theorem izone_touches (c : Rat) (c0 c1 : Str) (p q : IRow) :
   rw [show (izoneArgs c c0 c1).cutoff = c from rfl] at this
   exact this.symm
 
-theorem mem_computeIzone {t : List Atom} {c : Rat} {c0 c1 : Str} (h : getChains t = [c0, c1]) :
-    ∃ zl, computeIzone t c = .ok zl ∧ ∀ ch rs, (ch, rs) ∈ zl ↔
-      ∃ x ∈ t, x.name ∈ backbone ∧ x.chainID = ch ∧ x.resSeq = rs ∧
-        ∃ y ∈ t, resKey y = resKey x ∧ ∃ q ∈ t, q.chainID ≠ y.chainID ∧ withinCutoff c q y = true := by
+/-- the rows `compute_izone` / `compute_irmsd_pdb2sql` select: the backbone atoms of the residues that own an atom within
+    the cutoff of an atom of the other chain -/
+theorem izone_rows {t : List Atom} {c : Rat} {c0 c1 : Str} (h : getChains t = [c0, c1]) :
+    ∃ d, contactSets t (izoneArgs c c0 c1) = .ok d ∧ ∀ r : IRow, r ∈ backboneRowsAt t (flattenContacts d) ↔
+      r ∈ t.zipIdx ∧ r.1.name ∈ backbone ∧
+        ∃ y ∈ t, resKey y = resKey r.1 ∧ ∃ q ∈ t, q.chainID ≠ y.chainID ∧ withinCutoff c q y = true := by
   obtain ⟨hne, h0, h1, hall⟩ := getChains_two h
-  unfold computeIzone
-  rw [h]
   have hrun := contactRun_two_chain' t (izoneArgs c c0 c1) rfl hne h0 h1
-  simp only [contactSets, hrun, Except.map, bind, Except.bind, pure, Except.pure]
+  simp only [contactSets, hrun, Except.map]
   refine ⟨_, rfl, ?_⟩
-  intro ch rs
-  simp only [sortedResidues, mem_sortedSet, List.mem_map, backboneRowsAt, List.mem_filter, rowsAt, flattenContacts,
-    List.flatMap_cons, List.flatMap_nil, List.append_nil, List.contains_eq_mem, decide_eq_true_eq, List.mem_append,
-    Prod.mk.injEq]
+  rintro ⟨xa, i⟩
+  simp only [backboneRowsAt, List.mem_filter, rowsAt, flattenContacts,
+    List.flatMap_cons, List.flatMap_nil, List.append_nil, List.contains_eq_mem, decide_eq_true_eq, List.mem_append]
   have hext : ∀ l, extendIf (izoneArgs c c0 c1) t l = Spec.Contact.extension backbone t l false := by
     intro l
     simp [extendIf, izoneArgs, Gen.izone_extend_to_residue, Gen.izone_only_backbone, extendToResidue_eq]
@@ -107,10 +106,9 @@ theorem mem_computeIzone {t : List Atom} {c : Rat} {c0 c1 : Str} (h : getChains 
   have hc2 : (izoneArgs c c0 c1).chain2 = c1 := rfl
   simp only [hc1, hc2]
   constructor
-  · rintro ⟨⟨xa, i⟩, ⟨⟨hai, hdisj⟩, hbb⟩, hch, hrs⟩
+  · rintro ⟨⟨hai, hdisj⟩, hbb⟩
     have hxi : t[i]? = some xa := List.mem_zipIdx_iff_getElem?.mp hai
-    have hxa : xa ∈ t := List.mem_of_getElem? hxi
-    refine ⟨xa, hxa, hbb, hch, hrs, ?_⟩
+    refine ⟨hai, hbb, ?_⟩
     rcases hdisj with ⟨x, hx, ⟨s, ⟨⟨p, sp⟩, ⟨hp, hpc⟩, hps, ⟨q, qi⟩, ⟨hq, hqc⟩, hw⟩, y, hy, hres⟩, _⟩ |
                      ⟨x, hx, ⟨s, ⟨⟨p, sp⟩, ⟨hp, hpc⟩, hps, ⟨q, qi⟩, ⟨hq, hqc⟩, hw⟩, y, hy, hres⟩, _⟩
     all_goals
@@ -123,24 +121,42 @@ theorem mem_computeIzone {t : List Atom} {c : Rat} {c0 c1 : Str} (h : getChains 
       rw [hpc, hqc]
     · exact fun e => hne e.symm
     · exact hne
-  · rintro ⟨x, hx, hbb, hch, hrs, y, hy, hres, q, hq, hqc, hw⟩
-    obtain ⟨i, hi⟩ := List.mem_iff_getElem?.mp hx
+  · rintro ⟨hai, hbb, y, hy, hres, q, hq, hqc, hw⟩
+    have hi : t[i]? = some xa := List.mem_zipIdx_iff_getElem?.mp hai
     obtain ⟨s, hs⟩ := List.mem_iff_getElem?.mp hy
     obtain ⟨j, hj⟩ := List.mem_iff_getElem?.mp hq
-    refine ⟨(x, i), ⟨⟨List.mem_zipIdx_iff_getElem?.mpr hi, ?_⟩, hbb⟩, hch, hrs⟩
+    refine ⟨⟨hai, ?_⟩, hbb⟩
     rcases hall y hy with hyc | hyc
     · have hqc' : q.chainID = c1 := by
         rcases hall q hq with h' | h'
         · exact absurd (h'.trans hyc.symm) hqc
         · exact h'
-      exact Or.inl ⟨x, hi, ⟨s, ⟨(y, s), ⟨List.mem_zipIdx_iff_getElem?.mpr hs, hyc⟩, rfl, (q, j),
+      exact Or.inl ⟨xa, hi, ⟨s, ⟨(y, s), ⟨List.mem_zipIdx_iff_getElem?.mpr hs, hyc⟩, rfl, (q, j),
         ⟨List.mem_zipIdx_iff_getElem?.mpr hj, hqc'⟩, hw⟩, y, hs, hres⟩, by simp⟩
     · have hqc' : q.chainID = c0 := by
         rcases hall q hq with h' | h'
         · exact h'
         · exact absurd (h'.trans hyc.symm) hqc
-      exact Or.inr ⟨x, hi, ⟨s, ⟨(y, s), ⟨List.mem_zipIdx_iff_getElem?.mpr hs, hyc⟩, rfl, (q, j),
+      exact Or.inr ⟨xa, hi, ⟨s, ⟨(y, s), ⟨List.mem_zipIdx_iff_getElem?.mpr hs, hyc⟩, rfl, (q, j),
         ⟨List.mem_zipIdx_iff_getElem?.mpr hj, hqc'⟩, hw⟩, y, hs, hres⟩, by simp⟩
+
+theorem mem_computeIzone {t : List Atom} {c : Rat} {c0 c1 : Str} (h : getChains t = [c0, c1]) :
+    ∃ zl, computeIzone t c = .ok zl ∧ ∀ ch rs, (ch, rs) ∈ zl ↔
+      ∃ x ∈ t, x.name ∈ backbone ∧ x.chainID = ch ∧ x.resSeq = rs ∧
+        ∃ y ∈ t, resKey y = resKey x ∧ ∃ q ∈ t, q.chainID ≠ y.chainID ∧ withinCutoff c q y = true := by
+  obtain ⟨d, hd, hrows⟩ := izone_rows (c := c) h
+  unfold computeIzone
+  rw [h]
+  simp only [hd, bind, Except.bind, pure, Except.pure]
+  refine ⟨_, rfl, ?_⟩
+  intro ch rs
+  simp only [sortedResidues, mem_sortedSet, List.mem_map, hrows, Prod.mk.injEq]
+  constructor
+  · rintro ⟨⟨x, i⟩, ⟨hx, hbb, hrest⟩, hch, hrs⟩
+    exact ⟨x, List.mem_of_getElem? (List.mem_zipIdx_iff_getElem?.mp hx), hbb, hch, hrs, hrest⟩
+  · rintro ⟨x, hx, hbb, hch, hrs, hrest⟩
+    obtain ⟨i, hi⟩ := List.mem_iff_getElem?.mp hx
+    exact ⟨(x, i), ⟨List.mem_zipIdx_iff_getElem?.mpr hi, hbb, hrest⟩, hch, hrs⟩
 
 /-! ### the residues listed by `compute_lzone` -/
 
